@@ -858,3 +858,19 @@ Example C10_nonvacuous_stats2 :
          (B "x_y_cov", OFlt (cov_of (mks2 2 4 10 10 26 68)))];
         [(B "g", OText (B "b")); (B "x_y_ols_m", OVoid); (B "x_y_ols_b", OVoid); (B "x_y_ols_n", OInt 1); (B "x_y_cov", OVoid)]].
 Proof. vm_compute. repeat split; try reflexivity; repeat constructor; cbn; intuition discriminate. Qed.
+
+(* ================================================================== var / stddev / meaneb of ints (fix: exact integer sums) *)
+From Miller Require Import C10.ProofsVarInt.
+(* the finalizer of the model (the streaming formula taken exactly over Q) IS the quotient (n sum2 - sum^2) / (n (n-1)) the
+   repaired code computes from the exact integer sums with one rounding; C10_var_equals_definition ties it to sum (x-mean)^2/(n-1) *)
+Theorem C10_var_finalizer_is_the_exact_integer_quotient :
+  forall n s1 s2, (2 <= n)%Z -> (0 <= inject_Z n * s2 - s1 * s1)%Q ->
+    exists q, finalize_var n s1 s2 = Some q /\ (q == (inject_Z n * s2 - s1 * s1) / (inject_Z n * inject_Z (n - 1)))%Q.
+Proof. exact var_finalizer_is_exact_quotient. Qed.
+Print Assumptions C10_var_finalizer_is_the_exact_integer_quotient.
+
+(* the witness of the repaired defect (the float formula gave 512) *)
+Theorem C10_var_of_timestamp_scale_ints_instance :
+  exists q, run_acc false AVar [B "1700000001"; B "1700000004"; B "1700000002"] = OFlt q /\ (q == 7 # 3)%Q.
+Proof. exact var_timestamps_instance. Qed.
+Print Assumptions C10_var_of_timestamp_scale_ints_instance.
